@@ -96,7 +96,7 @@ def build_harness(name, bins=None, profile="release", features=None):
 
 
 def workdir(check_id, fresh=True):
-    d = os.path.join(BUILD, "work", check_id)
+    d = os.path.join(BUILD, "work" + _repo_tag(), check_id)
     if fresh and os.path.exists(d):
         shutil.rmtree(d, ignore_errors=True)
     os.makedirs(d, exist_ok=True)
@@ -196,7 +196,7 @@ class Reporter:
             if v["key"] == key:
                 v["count"] += 1
                 return True
-        rdir = os.path.join(VERIF, "replays", self.prop)
+        rdir = os.path.join(VERIF, "replays", self.prop) if REPO == "/repo" else os.path.join(BUILD, "replays" + _repo_tag(), self.prop)
         os.makedirs(rdir, exist_ok=True)
         path = os.path.join(rdir, "%s.json" % sha(key))
         with open(path, "w") as fh:
@@ -228,8 +228,10 @@ class Reporter:
             "wall_s": round(time.time() - self.t0, 2),
             "violations": len(self.violations),
         }
-        os.makedirs(os.path.join(VERIF, "evidence"), exist_ok=True)
-        with open(os.path.join(VERIF, "evidence", "%s.json" % self.prop), "w") as fh:
+        # runs against another checkout (VERIF_REPO, used for mutants) must not overwrite the evidence of /repo
+        evdir = os.path.join(VERIF, "evidence") if REPO == "/repo" else os.path.join(BUILD, "evidence" + _repo_tag())
+        os.makedirs(evdir, exist_ok=True)
+        with open(os.path.join(evdir, "%s.json" % self.prop), "w") as fh:
             json.dump(ev, fh, indent=1, default=str)
         do = cov.get("distinct_outcomes")
         summary = {k: v for k, v in cov.items() if isinstance(v, (int, float, bool))}
